@@ -62,6 +62,13 @@ class TupleVal:
         self.items = list(items)
 
 
+class IdxVal:
+    """data-dependent position in a 2-vector (an entry of argsort's result): `hi` if the Coq boolean `cond` holds, else `lo`."""
+
+    def __init__(self, cond, hi, lo):
+        self.cond, self.hi, self.lo = cond, hi, lo
+
+
 def scalar(term):
     return Val('S', (), term)
 
@@ -247,8 +254,24 @@ class Translator:
             qual, pspecs = f[0], f[1]
             opts = f[2] if len(f) > 2 else {}
             fnode = self.find_def(tree, qual)
+            if 'extract' in opts:     # one assignment statement inside a non-translatable function, as a kernel of its own (C05)
+                fnode, qual = self.extract_stmt(fnode, qual, opts), opts['coq_name']
             out.append(self.translate_func(mod, qual, fnode, pspecs, opts))
         return mod, out
+
+    def extract_stmt(self, fnode, qual, opts):
+        """opts['extract'] = dict(target=<name>, index=k, count=m, params=[names]): the function must contain exactly m plain
+        assignments `<target> = ...` (source order); the k-th becomes `def <coq_name>(params): <target> = ...; return <target>`."""
+        ex = opts['extract']
+        tgt = ex['target']
+        found = sorted((n for n in ast.walk(fnode) if isinstance(n, ast.Assign) and len(n.targets) == 1
+                        and isinstance(n.targets[0], ast.Name) and n.targets[0].id == tgt), key=lambda n: (n.lineno, n.col_offset))
+        if len(found) != ex['count']:
+            raise TranslateError('%s: expected %d assignments to %s, found %d' % (qual, ex['count'], tgt, len(found)))
+        src = 'def %s(%s):\n    pass\n' % (opts['coq_name'], ', '.join(ex['params']))
+        fn = ast.parse(src).body[0]
+        fn.body = [found[ex['index']], ast.Return(value=ast.Name(id=tgt, ctx=ast.Load()))]
+        return fn
 
     def find_def(self, tree, qual):
         parts = qual.split('.')
@@ -444,6 +467,10 @@ class Translator:
             return TupleVal([self.bind_local('%s_%d' % (name, i), it, lines) for i, it in enumerate(v.items)])
         if name == '_':
             return v
+        if isinstance(v, IdxVal):
+            n = san(name + getattr(self, 'local_suffix', ''))
+            lines.append('let %s := %s in' % (n, v.cond))
+            return IdxVal(n, v.hi, v.lo)
         # locals of an inlined nested def get a unique suffix: the inlined body may be expanded several times in one
         # expression, and its result expressions must not be captured by a later expansion's bindings
         name = name + getattr(self, 'local_suffix', '')
@@ -704,6 +731,13 @@ class Translator:
             return self.stack(TupleVal(subs))
         k = self.const_int(i0)
         if k is None:
+            # positions computed by argsort of a 2-vector (IdxVal): a select between the two entries
+            iv = self.expr(i0) if isinstance(i0, (ast.Name, ast.Subscript)) else None
+            if isinstance(iv, IdxVal):
+                return self.index(self.select(boolean(iv.cond), v.index(iv.hi), v.index(iv.lo)), idxs[1:])
+            if isinstance(iv, TupleVal) and iv.items and all(isinstance(x, IdxVal) for x in iv.items):
+                subs = [self.index(self.select(boolean(x.cond), v.index(x.hi), v.index(x.lo)), idxs[1:]) for x in iv.items]
+                return self.stack(TupleVal(subs))
             raise TranslateError('non-constant index at line %d' % getattr(i0, 'lineno', 0))
         return self.index(v.index(k), idxs[1:])
 
@@ -814,6 +848,15 @@ class Translator:
         # numpy-like primitives
         if base in NP_ALIASES or base in ('jax.numpy', 'np.linalg', 'jnp.linalg', 'jax.lax', 'lax', 'jax.numpy.linalg'):
             return self.np_call(base, name, e.args, kw, e)
+        # python builtins min(a, b) / max(a, b) on scalars, exactly as CPython evaluates them: the FIRST argument is kept unless the
+        # second is strictly smaller / larger (so a NaN second argument is dropped, a NaN first argument is kept)
+        if base is None and name in ('min', 'max') and name not in self.env and len(e.args) == 2 and not kw:
+            a, b = self.expr(e.args[0]), self.expr(e.args[1])
+            for v in (a, b):
+                if not isinstance(v, Val) or v.shape != () or v.kind != 'S':
+                    raise TranslateError('builtin %s only for two scalars at line %d' % (name, e.lineno))
+            c = '(nltb %s %s)' % ((b.data, a.data) if name == 'min' else (a.data, b.data))
+            return scalar('(if %s then %s else %s)' % (c, b.data, a.data))
         if base is None and name == 'if_then_else':
             c, a, b = [self.expr(x) for x in e.args]
             return self.select(c, a, b)
@@ -944,6 +987,15 @@ class Translator:
             return self.map1(lambda t: '(nsub (nexp %s) nunit)' % t, A(0))
         if name == 'log1p' and len(args) == 1:
             return self.map1(lambda t: '(nln (nadd nunit %s))' % t, A(0))
+        if name == 'argsort' and len(args) == 1 and not kw:
+            # stable ascending argsort of a 2-vector [a, b]: [0, 1] unless b < a (jax.numpy.argsort is stable; NaN aside)
+            v = A(0)
+            if isinstance(v, TupleVal):
+                v = self.stack(v)
+            if not isinstance(v, Val) or v.kind != 'S' or v.shape != (2,):
+                raise TranslateError('argsort only for 2-vectors at line %d' % node.lineno)
+            c = '(nltb %s %s)' % (v.data[1], v.data[0])
+            return TupleVal([IdxVal(c, 1, 0), IdxVal(c, 0, 1)])
         if name == 'square' and len(args) == 1:
             return self.map1(lambda t: '(npow %s 2)' % t, A(0))
         if name in ('minimum', 'maximum') and len(args) == 2:
